@@ -14,7 +14,7 @@ PROFILE = {
 def run(ctx):
     res = Result("C01")
     results, cover, shapes = common.e1_check(
-        ctx, res, PROFILE, n_quick=96, n_thorough=640, steps=150, steps_thorough=300,
+        ctx, res, PROFILE, n_quick=96, n_thorough=2560, steps=150, steps_thorough=300,
         relevant=lambda t: t[0] == "audience",
         nontrivial_rule="random multi-client histories (join/part/kick/nick/mode/disconnect) interleaved "
                         "with PRIVMSG/NOTICE to mixed target lists; a case is one accepted target; distinct = "
